@@ -270,7 +270,11 @@ def run(ctx):
         base = {k: scenario(frames[:k]) for k in range(len(frames) + 1)}
         full = base[len(frames)]
         if full['err'] or len(full['replies']) != len(frames) or not full['rb_ok']:
-            raise core.HarnessError('baseline session failed: %r' % ({k: v for k, v in full.items() if k != 'image'},))
+            bad(dict(stream=which, frames=[f.hex() for f in frames], processed=len(full['calls']), replies=[x.hex() for x in full['replies']], error=full['err'],
+                     later_session_served=full['rb_ok']),
+                'complete request frames delivered one per recv() and followed by end-of-stream were not all acted upon (%d replies for %d frames)'
+                % (len(full['replies']), len(frames)))
+            continue
         reply_streams.append(full['replies'])
         # --- chunk plans of the complete stream
         plans = plans_for(stream, rng, ctx.thorough, 5 if which else 3)
